@@ -81,6 +81,12 @@ def derive(prog) -> Dict[str, str]:
             return None
         cands = [x for x in _self_attrs(fi) if x not in known and prog.lookup(prog.classes[cname], x) is None] \
             if cname in prog.classes else []
+        # an attribute the accessor itself fills (a cache of its answer) is not the state it answers from
+        me = fi.node.args.args[0].arg if fi.node.args.args else None
+        stored = {n.attr for n in ast.walk(fi.node) if isinstance(n, ast.Attribute) and isinstance(n.ctx, ast.Store)
+                  and isinstance(n.value, ast.Name) and n.value.id == me}
+        if any(x not in stored for x in cands):
+            cands = [x for x in cands if x not in stored]
         # an accessor that goes through another accessor (self.qty_cls) reads no private attribute itself
         if len(cands) >= 1:
             assign(cands[0], canonical)
